@@ -68,11 +68,12 @@ fn compress_multiple(data: &[u8], flags: u8) -> Result<Vec<u8>> {
     // We apply compressions in order: ADPCM, then others
     let mut current_data = data.to_vec();
 
-    // Apply ADPCM first if requested
-    if has_adpcm_mono {
-        current_data = algorithms::adpcm::compress_mono(&current_data, 5)?;
-    } else if has_adpcm_stereo {
+    // Apply ADPCM first if requested. With both bits set the decoder assumes
+    // stereo, so the encoder has to as well.
+    if has_adpcm_stereo {
         current_data = algorithms::adpcm::compress_stereo(&current_data, 5)?;
+    } else if has_adpcm_mono {
+        current_data = algorithms::adpcm::compress_mono(&current_data, 5)?;
     }
 
     // Count remaining compressions
